@@ -317,6 +317,25 @@ def renderSymm (comps : List Tok) : List Char := "SYMM  ".toList ++ joinWith [',
     the commas -/
 def normSymm (line : List Char) : List Tok := splitComma ((line.drop 4).filter (· ≠ ' ')) []
 
+/-! ### the writer and '+filename' include files -/
+
+/-- an entry of the line list: `inc` = it was spliced in from an include file. The mark belongs to the ENTRY (the
+    library tests object identity, `_is_included`), not to its text: two entries with the same text are two entries. -/
+structure Entry where
+  inc : Bool
+  text : List Char
+deriving Repr, DecidableEq
+
+/-- `write_shelx_file`: entries spliced in from include files are not written (nor are emptied continuation lines) -/
+def writeEntries (es : List Entry) : List (List Char) := ((es.filter fun e => !e.inc).map Entry.text).filter (· ≠ [])
+
+/-- `_find_included_files`: the line list after reading = the lines of the res file, in order, with lines of include
+    files (flat or nested, any number, any text) spliced in anywhere -/
+inductive Spliced : List (List Char) → List Entry → Prop where
+  | nil : Spliced [] []
+  | res (l : List Char) {rs es} : Spliced rs es → Spliced (l :: rs) (⟨false, l⟩ :: es)
+  | inc (l : List Char) {rs es} : Spliced rs es → Spliced rs (⟨true, l⟩ :: es)
+
 /-- two parameter lists denote the same instruction: they agree once the omitted trailing parameters are filled in
     with the SHELXL defaults -/
 def SameInstr (defs : List Rat) (tin tout : List Rat) : Prop := withDefaults defs tin = withDefaults defs tout
